@@ -4,7 +4,6 @@ use datafusion_substrait::logical_plan::{consumer::from_substrait_plan, producer
 use dfv::canon::compare;
 use dfv::cases::Case;
 use dfv::diffrun::*;
-use dfv::qgen::GenCfg;
 use vcommon::{fp_mix, fp_str, json, Args, Report, Rng};
 
 fn one_case(rep: &Report, case: &Case, _rng: &mut Rng) {
@@ -99,7 +98,8 @@ fn run(args: &Args) -> i32 {
     let rep = Report::new("C37", "exploration", args);
     rep.set_rule("case = generated query; its unoptimized and optimized logical plans are converted to Substrait and back in a fresh session and executed; compared with the original plan's rows (multiset / sequence per ORDER BY, by position) and logical output types; distinct = hash(case, outcome); non-trivial = at least one plan form converted both ways");
     rep.assume("producer and consumer rejections are skips (conditional property), counted by reason");
-    let cfg = GenCfg::default();
+    let cfg = gen_cfg_from(args, "full");
+    rep.extra("generator_fragment", json!(format!("{cfg:?}")));
     for_each_case(args, &rep, 0xC37, args.bound("systematic", 400, 3000), args.bound("random", 400, 12000), &cfg, |case, rng, _| one_case(&rep, case, rng));
     rep.obligation("roundtrips", rep.get_count("roundtrip/optimized") + rep.get_count("roundtrip/unoptimized") > 100, "plans must actually round-trip");
     rep.finish()
